@@ -91,6 +91,15 @@ class HotVertex(Vertex):
     NEIGHBOR_CACHING = True
 
 
+class DefaultAttrVertex(Vertex):
+    """A sparse-record style vertex: unknown attributes read as None (hasattr() is always true).  C14 only."""
+
+    def __getattr__(self, name):
+        if name.startswith("__") and name.endswith("__"):
+            raise AttributeError(name)
+        return None
+
+
 class ViewVertex(Vertex):
     """
     Overrides the public `links` accessor with a pure view (same links, reversed order).  Everything the
